@@ -14,6 +14,9 @@ def main(path):
     if "script" in r:
         bdir = vbuild.build(r.get("variant", "asan"))
         exe = os.path.join(bdir, r.get("driver", "jcdrv"))
+        if r.get("memcheck"):
+            sh = core.run_memcheck(exe, [("replay", r["script"])], r.get("property", "?"), tag="mcreplay", env=r.get("env"), args=r.get("args", ()))
+            print("  memcheck now reports:", [v["key"] for v in sh.violations] or "nothing")
         res, crashes = core.run_script(exe, [("replay", r["script"])], env=r.get("env"), tag="replay", args=r.get("args", ()))
         for c, ln in zip(r["script"], res.get("replay", [])):
             print("  >", c[:200])
